@@ -123,7 +123,13 @@ func (c14) Gen(r *sim.Rand, tier string, run uint64) *sim.Scenario {
 		sc.Cfg["e"] = 0
 		sc.Cfg["sp"] = 0x01FF
 	}
-	if kind == 1 && r.Chance(1, 5) {
+	if kind == 1 && r.Chance(1, 6) {
+		pcv := sc.Cfg["pc"]
+		sc.Cfg["split"] = (pcv&0xFF0000 | (pcv+int64(r.Range(4, 48)))&0xFFFF) &^ 0xF
+		if sc.Cfg["split"] == 0 {
+			sc.Cfg["split"] = 0x10
+		}
+	} else if kind == 1 && r.Chance(1, 5) {
 		// cpualt executing out of open bus: a 16-byte block is left unattached (reads return
 		// the bus latch Bus.M) and the program jumps to its last byte
 		hole := int64(r.Intn(0x70))<<16 | int64(sim.PickInt(r, 0xA9, 0xAD, 0xA2, 0x69, 0xC9, 0x8D, 0x29, r.Intn(256)))<<8 | int64(r.Intn(16))<<4
@@ -370,6 +376,7 @@ func c14alt(sc *sim.Scenario, env *sim.Env) *sim.Violation {
 	var kept, keptCopy [][]byte
 	run := func(traced bool) (Regs, *SimMem, []preStep, [][]byte, bool, string) {
 		mem := mkMem()
+		var mem2 *SimMem
 		var holeLo, holeHi uint32
 		if h := uint32(sc.C("hole")); h != 0 {
 			holeLo, holeHi = h&0xFFFFF0, h&0xFFFFF0|0xF
@@ -380,6 +387,15 @@ func c14alt(sc *sim.Scenario, env *sim.Env) *sim.Violation {
 			holeLo, holeHi = 0, 0
 		} else {
 			mc = NewAltMachine(env, 0, mem, holeLo, holeHi)
+			if sp := uint32(sc.C("split")); sp != 0 && holeHi == 0 {
+				// a second device, behind closures of its own, serves 4 KiB from a 16-byte
+				// boundary inside the program: instructions straddle the edge between them
+				second := NewSimMem(env, 1, uint64(sc.C("fillseed"))^0x5ec0)
+				second.NoLog = true
+				loadSimMem(second, sc)
+				SplitAlt(mc, second, sp&0xFFFFF0)
+				mem2 = second
+			}
 		}
 		mc.CPU.SetRegs(startRegs(sc))
 		var recs []preStep
@@ -392,6 +408,9 @@ func c14alt(sc *sim.Scenario, env *sim.Env) *sim.Violation {
 				for k := 0; k < 4; k++ {
 					a := uint32(r.RK)<<16 | uint32(r.PC+uint16(k))
 					ins[k] = mem.Peek(a)
+					if sp := uint32(sc.C("split")) & 0xFFFFF0; mem2 != nil && a >= sp && a <= sp+0xFFF {
+						ins[k] = mem2.Peek(a)
+					}
 					if holeHi > holeLo && a >= holeLo && a <= holeHi {
 						ins = nil // the bytes there are whatever the bus latch holds: not recorded
 						break
@@ -419,6 +438,14 @@ func c14alt(sc *sim.Scenario, env *sim.Env) *sim.Violation {
 				mc.CPU.Step()
 			}
 		})
+		if mem2 != nil {
+			// fold the second device's writes into the first one's store for the comparison
+			for a, v := range mem2.Store {
+				if v != mem2.Fill(a) {
+					mem.Store[a|0x80000000] = v
+				}
+			}
+		}
 		return mc.CPU.Regs(), mem, recs, lines, p, sim.PanicString(pv)
 	}
 	regsA, memA, _, lines, pA, msgA := run(true)
